@@ -22,6 +22,9 @@ Hypothesis HCond : forall c a b, P c -> P a -> P b -> P (ECond c a b).
 Hypothesis HArr : forall es, Forall P es -> P (EArr es).
 Hypothesis HAt : forall a i, P a -> P i -> P (EAt a i).
 Hypothesis HLen : forall a, P a -> P (ELen a).
+Hypothesis HStr1 : forall o a, P a -> P (EStr1 o a).
+Hypothesis HStr2 : forall o a b, P a -> P b -> P (EStr2 o a b).
+Hypothesis HSubstr : forall a b c, P a -> P b -> P c -> P (ESubstr a b c).
 Fixpoint expr_ind2 (e : expr) : P e :=
   match e with
   | ENum z => HNum z | EBool b => HBool b | EStr s => HStr s | EVar x => HVar x
@@ -36,6 +39,9 @@ Fixpoint expr_ind2 (e : expr) : P e :=
                   match l with [] => Forall_nil P | a :: r => Forall_cons a (expr_ind2 a) (go r) end) es)
   | EAt a i => HAt a i (expr_ind2 a) (expr_ind2 i)
   | ELen a => HLen a (expr_ind2 a)
+  | EStr1 o a => HStr1 o a (expr_ind2 a)
+  | EStr2 o a b => HStr2 o a b (expr_ind2 a) (expr_ind2 b)
+  | ESubstr a b c => HSubstr a b c (expr_ind2 a) (expr_ind2 b) (expr_ind2 c)
   end.
 End ExprInd.
 
@@ -204,7 +210,8 @@ Qed.
 
 Lemma compile_expr_pool G ce e : forall p c p', compile_expr G ce e p = Some (c, p') -> pool_le p p'.
 Proof.
-  induction e as [z|b|s|x|o a IHa|o a b IHa IHb|f args IHargs|c0 a b IHc IHa IHb|es IHes|a i IHa IHi|a IHa] using expr_ind2;
+  induction e as [z|b|s|x|o a IHa|o a b IHa IHb|f args IHargs|c0 a b IHc IHa IHb|es IHes|a i IHa IHi|a IHa
+                  |so a IHa|so a b IHa IHb|a b c0 IHa IHb IHc] using expr_ind2;
     intros p c p' H.
   - inversion H. apply pool_le_refl.
   - inversion H. apply pool_le_refl.
@@ -243,6 +250,15 @@ Proof.
     inversion H; subst. eapply pool_le_trans; eauto.
   - cbn [compile_expr] in H. destruct (compile_expr G ce a p) as [[ca p1]|] eqn:Ea; [|discriminate].
     inversion H; subst. eapply IHa; eauto.
+  - cbn [compile_expr] in H. destruct (compile_expr G ce a p) as [[ca p1]|] eqn:Ea; [|discriminate].
+    inversion H; subst. eapply IHa; eauto.
+  - cbn [compile_expr] in H. destruct (compile_expr G ce a p) as [[ca p1]|] eqn:Ea; [|discriminate].
+    destruct (compile_expr G ce b p1) as [[cb p2]|] eqn:Eb; [|discriminate].
+    inversion H; subst. eapply pool_le_trans; eauto.
+  - cbn [compile_expr] in H. destruct (compile_expr G ce a p) as [[ca p1]|] eqn:Ea; [|discriminate].
+    destruct (compile_expr G ce b p1) as [[cb p2]|] eqn:Eb; [|discriminate].
+    destruct (compile_expr G ce c0 p2) as [[cc p3]|] eqn:Ec; [|discriminate].
+    inversion H; subst. eapply pool_le_trans; [eauto|]. eapply pool_le_trans; eauto.
 Qed.
 
 Lemma compile_args_pool G ce args : forall p c p', compile_args G ce args p = Some (c, p') -> pool_le p p'.
